@@ -726,11 +726,11 @@ Qed.
 (* Compile.run_source on the printed program, GIVEN that the lexer returns the tokens of the tree (the link tested
    by the check, kind lex_vs_tokens) and leaves the time base alone *)
 Theorem run_source_simulation p ls : wf_prog p = true ->
-  lex (mkLex 96 [] init_vars VarRows.rhythm_rows) (pprog p) 0 = Ok (top_tokens p, ls) -> lx_timebase ls = 96 ->
+  lex (mkLex 96 [] init_vars VarRows.rhythm_rows false) (pprog p) 0 = Ok (top_tokens p, ls) -> lx_timebase ls = 96 ->
   (prog_depth p <= length (pprog p))%nat -> (fuel_of p <= STEPS)%nat ->
   exists s, run_source (pprog p) = Ok s /\ R s (denote_prog p).
 Proof.
-  intros Hwf Hlex Htb Hd Hs. unfold run_source. rewrite Hlex. cbn [bind].
+  intros Hwf Hlex Htb Hd Hs. unfold run_source, run_source_lang. rewrite Hlex. cbn [bind].
   apply exec_simulation_top; try assumption. apply R_after_lex. exact Htb.
 Qed.
 
